@@ -211,6 +211,34 @@ example : (pullAttempt exG [0, 1, 5] [.disconnect 0 1, .connect 5 1, .disconnect
     (pullAttempt exG [0, 1, 5] [.disconnect 0 1, .connect 5 1, .disconnect 1 5]).1.conns 1 = [0, 5] := by decide
 example : (pullAttempt exG [0, 1] [.disconnect 1 5]).2 = false := by decide
 
+/-- connections formed through calls (`set_input_values`, `run(**kwargs)`, `node(**kwargs)`: the keywords are applied
+in order, the first refusal raises): the invariant survives; accepted or refused half-way, every list keeps what it
+had as its tail (nothing is removed or re-ordered); and a call whose channel keywords only RESTATE existing
+connections returns the identical graph, whatever a later keyword does -/
+theorem C12_call (g : G) (known : Bool) (items : List CallItem) (h : Inv g) :
+    Inv (callOp g known items).1 ∧
+    (∀ x, ∃ pre, (callOp g known items).1.conns x = pre ++ g.conns x) ∧
+    ((∀ a b, CallItem.chan a b ∈ items → b ∈ g.conns a) → (callOp g known items).1 = g) := by
+  unfold callOp
+  cases known with
+  | true => exact ⟨callConn_inv items g h, callConn_suffix items g, callConn_restated items g⟩
+  | false => exact ⟨h, fun x => ⟨[], rfl⟩, fun _ => rfl⟩
+
+example : (callOp exG true [.chan 0 1, .valOk, .valBad]).2 = .typeErr ∧
+    (callOp exG true [.chan 0 1, .valOk, .valBad]).1.conns 0 = [1] := by decide
+example : (callOp exG true [.chan 6 1, .chan 0 2]).2 = .connErr ∧ (callOp exG true [.chan 6 1, .chan 0 2]).1.conns 1 = [6, 0, 5] := by
+  decide
+
+/-- why `replace_child` insists on an UNCONNECTED replacement (`seatable`'s last two clauses): seat a replacement whose
+extra channel 7 is already wired to the neighbour 2 that also feeds the replaced channel 0 — `_seat_replacement` strips
+every channel of the replacement from the neighbour's list: 7 still lists 2, 2 no longer lists 7 (seeded change C12-9) -/
+def preKind : Nat → Kind | 2 => .dataOut | _ => .dataIn
+def preG : G := ConnOps.run (empty preKind (fun c => c) (fun _ _ => true)) [.connect 0 [2], .connect 7 [2], .connect 4 [2]]
+theorem C12_seat_prewired_witness :
+    Inv preG ∧ seatable preG [(0, 4)] [0] [4, 7] = false ∧
+    (2 : Nat) ∈ (seat preG [(0, 4)] [0] [4, 7]).conns 7 ∧ (7 : Nat) ∉ (seat preG [(0, 4)] [0] [4, 7]).conns 2 := by
+  refine ⟨C12_history_current _ _ _ _, by decide, by decide, by decide⟩
+
 /-! ## refusals per side, in the tree's order of half-removals -/
 
 /-- where no channel refuses (the tree as it is), the half-by-half transcription IS the atomic one
@@ -399,6 +427,8 @@ end PwVerif.C12
 #print axioms PwVerif.C12.C12_replace_refused_noop
 #print axioms PwVerif.C12.C12_restore_insert
 #print axioms PwVerif.C12.C12_load_in_place
+#print axioms PwVerif.C12.C12_call
+#print axioms PwVerif.C12.C12_seat_prewired_witness
 #print axioms PwVerif.C12.C12_pull_restore
 #print axioms PwVerif.C12.C12_flow_derivation
 #print axioms PwVerif.C12.C12_firing_order
